@@ -14,7 +14,7 @@
   `apprun` is pending in `c` (`run()` has been entered — `apprun` resets the force-quit flag once).
   `Live P c0 c`: `c` is a configuration of a run that has not halted.
 -/
-import Simpleline.Lemmas.DispatchStop
+import Simpleline.Lemmas.DispatchCount
 
 namespace Simpleline
 open Dispatch
@@ -152,7 +152,8 @@ theorem C09_quit_callback_when (P : Prog) (c0 c c' : Cfg) (h0 : Started c0) (hr 
 registered quit callback has been logged (exactly once, by `C09_quit_callback_once`). -/
 theorem C09_returned_ran_quit_callback (P : Prog) (c0 c c' : Cfg) (h0 : Started c0) (hl : Live P c0 c)
     (hs : step P c = .error (.returned, c')) (d : Nat) (hd : c0.L.quitCb = some d) : Ev.quitcb d ∈ c.log :=
-  ((liveInv_live h0 hl).done ((returned_iff P c c').1 hs).1).2 d hd
+  ((liveInv_live (R := fun _ => True) (fun _ _ _ => trivial) h0 (fun _ _ _ _ => trivial) hl).done
+    ((returned_iff P c c').1 hs).1).2 d hd
 
 /-! ### 4. nothing else ends the loop -/
 
@@ -190,32 +191,23 @@ theorem C09_failing_handler_keeps_loop (c c' : Cfg) (h : c.raise .err = .ok c') 
   obtain ⟨code', Q, T, n, rfl, -, hsuf, -⟩ := raise_ok_nf h
   exact ⟨rfl, rfl, rfl, hsuf⟩
 
-/-- **What makes `run()` return** (partial; the full statement is in the comment below).  If a run that has
-not died halts with outcome `returned`, then its history contains an exit request, or the outermost `_mainloop`
-activation left its loop — which it does only with `_run_loop` down — and a cause for the flag being down
-is in the history: a force-quit, or a level closed by `close_loop`. -/
-theorem C09_nothing_else_ends_partial (P : Prog) (c0 c c' : Cfg) (h0 : Started c0) (hl : Live P c0 c)
+/-- The outermost `_mainloop` activation finds `_run_loop` down only after a force-quit: closing an inner level never
+reaches it (the flag an inner `close_loop` lowers is consumed by an inner activation).  Proved by counting: while
+`run()`'s loop is pending, the number of open levels, plus one if the flag is down, never exceeds the number of
+pending `_mainloop` activations — which needs that an ordinary exception never unwinds an activation
+(bracket invariant `Chained` of `Lemmas/ShapeChain`). -/
+theorem C09_outer_loop_left_only_after_force_quit (P : Prog) (c0 c : Cfg) (h0 : Started c0) (hr : Reach P c0 c)
+    (hc : c.code = [.mainCheck 0, .catchExit, .quitCb]) (hf : c.L.runLoop = false) : Tr.forceQuit ∈ c.tr :=
+  outer_down_forceQuit h0 hr hc hf
+
+/-- **Nothing else ends the loop.**  If a run that has not died halts with outcome `returned`, then its history
+contains an exit request — a handler raising `ExitMainLoop`, the scheduler finding no screen left, `close_loop`
+closing the outermost level: all of them `Cfg.raise .exit` — or a force-quit (after which the outermost
+activation left its loop).  A failing handler, closing an inner level, an empty queue do not end it. -/
+theorem C09_nothing_else_ends (P : Prog) (c0 c c' : Cfg) (h0 : Started c0) (hl : Live P c0 c)
     (hs : step P c = .error (.returned, c')) :
-    Tr.exit ∈ c.tr ∨
-    (Tr.loopReturn 0 ∈ c.tr ∧ (Tr.forceQuit ∈ c.tr ∨ ∃ q, Tr.closeLevel q ∈ c.tr)) :=
-  ((liveInv_live h0 hl).done ((C09_returned_iff P c c').1 hs).1).1
-
-/-
-  Full statement (not proved):
-
-    theorem C09_nothing_else_ends … (hs : step P c = .error (.returned, c')) :
-        Tr.exit ∈ c.tr ∨ Tr.forceQuit ∈ c.tr
-
-  Exact gap: the disjunct `loopReturn 0 ∧ closeLevel q` without a force-quit — "closing an *inner* level made
-  the *outermost* activation return".  `popLevel` lowers `_run_loop` only when at least one level remains
-  (`levels.dropLast ≠ []`), so excluding it needs the counting invariant
-  `levels.length + (if runLoop then 0 else 1) ≤ #mainCheck + #restoreRun + #apprun` of the pending code (for
-  configurations whose code still ends in `apprun` or `mainCheck 0, catchExit, quitCb`), which in turn
-  needs that an ordinary exception never unwinds a `mainCheck` (every `mainCheck` is preceded by
-  `loopCheck`, that by one of `getDispatch / processSignal / dispatch / kill`, and a `dispatch s (i+1)` that is
-  not the next instruction by `catchHandler`).  With it, at the `mainCheck 0` that leaves the loop the levels
-  are empty, which only force-quit (or a successful exit request) brings about.
--/
+    Tr.exit ∈ c.tr ∨ (Tr.loopReturn 0 ∈ c.tr ∧ Tr.forceQuit ∈ c.tr) :=
+  returned_reason h0 hl ((returned_iff P c c').1 hs).1
 
 /-! ### 5. `run()` refuses to start with nothing scheduled -/
 
